@@ -37,6 +37,7 @@ FAIL_KINDS = ["construct", "substitute", "cnf-quantified", "qelim-nonbool", "siz
               "smtlib-parse", "array-nonconst-key", "fi-free-vars", "custom-operator", "model-text", "malformed-declaration",
               "with-block-raises", "generic-solver-redefinition", "command-generator", "construct-equal-key", "empty-preference-list", "simplify-custom-walker"]
 DECL_NAME = "c15 declared name"
+ENV_ONLY = "c15 env only"
 GENERIC_NAME = "c15-generic-solver"
 
 
@@ -65,6 +66,8 @@ class World(object):
         self.env = Environment()
         with self.env:
             self.parser = SmtLibParser(self.env)
+            # a symbol of the environment that no text ever declares to the parser
+            self.env.formula_manager.Symbol(ENV_ONLY, self.env.type_manager.INT())
         from pysmt.smtlib.printers import SmtDagPrinter
         self.dagprinter = SmtDagPrinter(StringIO())          # a long-lived printer object
         self.generic = False
@@ -294,6 +297,10 @@ def gen_fail(g, probe, rel):
             ("model-text", "parse_model", "((define-fun |pm c| () Int 1) (define-fun |pm d| () Int (frob 1)))"),
             ("model-text", "answer", "(((let ((|zq!| 1)) (+ |zq!| true)) 1))"),
             ("model-text", "answer", "((i0 1) (i1"),
+            ("model-text", "answer", "((|c15 env only| 3) p true)"),
+            # rejected after the body has been read: the body mentions a symbol that is not a parameter
+            ("model-text", "parse_model", "((define-fun |pm f| ((x Int)) Int (+ x (as |pm y| Int))))"),
+            ("model-text", "parse_model", "((define-fun |pm c| () Int 1) (define-fun |pm f| ((x Int)) Int (+ x |c15 env only|)))"),
         ])
     if kind == "malformed-declaration":
         # the declaring command itself is malformed: the name it would have declared must stay undeclared
@@ -319,7 +326,9 @@ def gen_fail(g, probe, rel):
             "(assert (let ((cgx 1) (cgq (+ true 1))) (> cgx cgq)))", "(assert (let ((cgq 2) (cgx 1) (cgr (frob))) (> cgx cgq)))",
             # definitions that are read to the end and rejected for the sort of their body
             "(define-fun cgf ((cgx Bool)) Int cgx)", "(define-fun cgf ((cgy Int) (cgx Int)) Bool (+ cgx cgy))",
-            "(define-fun cgf ((cgx Real)) Int (+ cgx 1.5))"]) + "\n")
+            "(define-fun cgf ((cgx Real)) Int (+ cgx 1.5))",
+            # rejected for what follows the logic name
+            "(set-logic QF_LRA QF_LIA)", "(set-logic QF_LRA QF_LIA)", "(set-logic QF_RDL :status sat)"]) + "\n")
     if kind == "custom-operator":
         bf = f if t == BOOL else (probe if reftype_or_none(probe) == BOOL else const(BOOL, True))
         return ("custom-operator", g.choice(CUSTOM_SERVICES), bf)
@@ -417,6 +426,37 @@ def _check_history(run, probe, history, probes, ptexts):
             run.fail({"subcheck": "trace:result-differs", "service": "command-generator", "after": "command-generator"}, case,
                      "(assert (> cgx (- cgx))) read by the long-lived parser's command generator: %s after failing commands, %s on the twin" % (
                          outs[0], outs[1]))
+    if "command-generator" in kinds and not ({"smtlib-parse", "model-text"} & set(kinds)):
+        # a numeral: its sort follows the logic, which a rejected set-logic command must not have set
+        outs = []
+        for W in (A, Bw):
+            with W.env:
+                try:
+                    W.ensure_cg_declared()
+                    cmds = list(W.parser.get_command_generator(StringIO("(assert (> cgx 1))\n")))
+                    outs.append("ok " + str(cmds[0].args[0]))
+                except Exception as e:
+                    outs.append("raised " + type(e).__name__)
+        run.cls("probe:command-generator-numeral")
+        if outs[0] != outs[1]:
+            run.fail({"subcheck": "trace:result-differs", "service": "command-generator", "after": "command-generator", "probe": "numeral"}, case,
+                     "(assert (> cgx 1)) read by the long-lived parser's command generator: %s after failing commands, %s on the twin" % (
+                         outs[0], outs[1]))
+    if "model-text" in kinds:
+        # a symbol of the environment that was never declared to the parser is, for the parser, not a symbol
+        outs = []
+        for W in (A, Bw):
+            with W.env:
+                try:
+                    cmds = list(W.parser.get_command_generator(StringIO("(assert (= |%s| |%s|))\n" % (ENV_ONLY, ENV_ONLY))))
+                    outs.append("ok " + str(cmds[0].args[0]))
+                except Exception as e:
+                    outs.append("raised " + type(e).__name__)
+        run.cls("probe:command-generator-environment-symbol")
+        if outs[0] != outs[1]:
+            run.fail({"subcheck": "trace:result-differs", "service": "command-generator", "after": "model-text", "probe": "environment-symbol"}, case,
+                     "(assert (= |%s| |%s|)) read by the long-lived parser's command generator: %s after rejected replies, %s on the twin" % (
+                         ENV_ONLY, ENV_ONLY, outs[0], outs[1]))
     # the preference lists of the factory
     if A.factory_used:
         if A.generic:
@@ -477,7 +517,8 @@ def _check_history(run, probe, history, probes, ptexts):
     def probe_replies():
         # get-model / get-value replies read by the long-lived parser (before get_script, which resets the parser)
         for which, text in (("parse_model", "((define-fun |pm b| () Int |zq!|))"), ("parse_model", "((define-fun |pm c| () Int 7))"),
-                            ("answer", "((|zq!| 1))"), ("parse_model", "((define-fun |pm g| ((a Int)) Int (+ a 1)))")):
+                            ("answer", "((|zq!| 1))"), ("parse_model", "((define-fun |pm g| ((a Int)) Int (+ a 1)))"),
+                            ("parse_model", "((define-fun |pm f| () Bool true))")):
             outs = []
             for W in (A, Bw):
                 with W.env:
